@@ -61,7 +61,7 @@ def d1b(chk, prog):
     tb = Table(chk, "gene-partition", "by_gene on literal tables satisfying the premise (each gene's bins consecutive up to ignored bins)", fi.loc(), fi.qn)
     ignored = ("-", "Antitarget", ".", "CGH")
     configs = []
-    for n in (1, 2, 3, 4):
+    for n in ((1, 2, 3, 4) if chk.tier != "thorough" else (1, 2, 3, 4, 5)):
         for names in itertools.product(["A", "B", "-", "Antitarget"], repeat=n):
             for cuts in itertools.product([False, True], repeat=n - 1):
                 chroms, c = [], 0
@@ -100,7 +100,7 @@ def d1b(chk, prog):
         return out
 
     bad, undecided, ran = [], [], 0
-    label_pool = [7, 3, 11, 2, 5, 13]
+    label_pool = [7, 3, 11, 2, 5, 13, 17, 1]
     for chroms, names in configs:
         if not premise(chroms, names):
             continue
